@@ -4,6 +4,7 @@ height, the rectangular shape and the row contents it had before (C04) and a sco
 -/
 import Verif.Props.C11Pass
 import Verif.Props.C04Prog
+import Verif.Props.C04Gap
 namespace Verif.Refine
 open Verif.Align Verif.MSA
 
@@ -34,6 +35,21 @@ theorem C11_pass_keeps_C04 (g : Nat) (sp : List (List Nat) → S) (hist : List S
     split
     · exact ⟨rfl, hr, rfl⟩
     · exact hc
+
+/-- no all-gap column before the pass, none after it (rolled back or kept) -/
+theorem C11_pass_keeps_nogap (g : Nat) (sp : List (List Nat) → S) (hist : List Split) (msa : List (List Nat))
+    (hr : Rect msa) (hok : histOkb g msa hist = true) (hnd : ∀ s ∈ hist, s.1.Nodup) (hg : NoGapCol g msa) :
+    NoGapCol g (iterPass sp (hist.map (stepOf g)) msa) := by
+  unfold iterPass
+  split
+  · exact hg
+  · unfold iterFinal
+    split
+    · exact hg
+    · rw [candidate_eq_foldl]
+      by_cases hne : hist = []
+      · subst hne; exact hg
+      · exact C04_history_nogap g hist msa hne hr hok hnd
 
 /-- **… and what C11 promises**, on an ordered carrier: both properties of one and the same result -/
 theorem C04_C11_pass [LinearOrder S] [ScoreLaws S] (g : Nat) (sp : List (List Nat) → S) (hist : List Split)
